@@ -250,7 +250,16 @@ def check(run):
         if not fl.entity.startswith('param:'):
             continue
         g = [(q.render(uaw, a), p_) for a, p_ in q.guards_at(uaw, fl.site)]
-        kind = 'send' if any(t.endswith('::wait_write)') and p_ for t, p_ in g) else 'recv' if any(t.endswith('::wait_read)') and p_ for t, p_ in g) else None
+        kind = None
+        for a_, p_ in q.guards_at(uaw, fl.site):
+            c_ = q.cmp_atom(a_)
+            if not c_ or c_[0] not in ('==', '!='):
+                continue
+            for side in c_[1:]:
+                t_ = q.render(uaw, side)
+                if t_.endswith('::wait_write') or t_.endswith('::wait_read'):
+                    if (c_[0] == '==') == bool(p_):
+                        kind = 'send' if t_.endswith('::wait_write') else 'recv'
         if kind is None:
             # the same dispatch written as switch (w) { case wait_write: ... }: the enclosing case label names the kind
             # (only when control cannot fall into it from the previous case)
